@@ -57,14 +57,8 @@ func ruleCORSOptionPlumbing(c *Ctx, rule string) {
 					b := mc.Bindings[i]
 					if al, isAlloc := b.(*ssa.Alloc); isAlloc {
 						// the captured variable: written once, with the parameter
-						var stored []ssa.Value
-						for _, ref := range *al.Referrers() {
-							if s2, ok := ref.(*ssa.Store); ok && s2.Addr == ssa.Value(al) {
-								stored = append(stored, s2.Val)
-							}
-						}
-						if len(stored) == 1 {
-							b = stored[0]
+						if par := cellParam(al); par != nil {
+							b = par
 						}
 					}
 					if par, isPar := b.(*ssa.Parameter); isPar {
@@ -118,6 +112,41 @@ func isPtrToNamedStruct(t types.Type, name string) bool {
 	return ok && n.Obj().Name() == name
 }
 
+// cellParam: the captured variable holds a parameter of the enclosing function — it is written once, with the
+// parameter, or with the parameter and then with copies of its own content (`xs = slices.Clone(xs)`).
+func cellParam(al *ssa.Alloc) *ssa.Parameter {
+	var par *ssa.Parameter
+	n := 0
+	for _, ref := range *al.Referrers() {
+		s2, ok := ref.(*ssa.Store)
+		if !ok || s2.Addr != ssa.Value(al) {
+			continue
+		}
+		n++
+		var q *ssa.Parameter
+		switch y := s2.Val.(type) {
+		case *ssa.Parameter:
+			q = y
+		case *ssa.Call:
+			if strings.HasPrefix(an.CalleeName(&y.Call), "slices.Clone") && len(y.Call.Args) == 1 {
+				a := y.Call.Args[0]
+				if ld, isLd := a.(*ssa.UnOp); isLd && ld.Op == token.MUL && ld.X == ssa.Value(al) {
+					continue // a copy of what the cell holds
+				}
+				q, _ = a.(*ssa.Parameter)
+			}
+		}
+		if q == nil || (par != nil && par != q) {
+			return nil
+		}
+		par = q
+	}
+	if n == 0 {
+		return nil
+	}
+	return par
+}
+
 // capturedParam: v, read inside the closure fn created by mc, is a parameter of the enclosing function — captured
 // directly, or through a captured variable that is written exactly once, with the parameter.
 func capturedParam(mc *ssa.MakeClosure, fn *ssa.Function, v ssa.Value) *ssa.Parameter {
@@ -134,14 +163,8 @@ func capturedParam(mc *ssa.MakeClosure, fn *ssa.Function, v ssa.Value) *ssa.Para
 		}
 		b := mc.Bindings[i]
 		if al, isAlloc := b.(*ssa.Alloc); isAlloc {
-			var stored []ssa.Value
-			for _, ref := range *al.Referrers() {
-				if s2, ok := ref.(*ssa.Store); ok && s2.Addr == ssa.Value(al) {
-					stored = append(stored, s2.Val)
-				}
-			}
-			if len(stored) == 1 {
-				b = stored[0]
+			if par := cellParam(al); par != nil {
+				b = par
 			}
 		}
 		if par, isPar := b.(*ssa.Parameter); isPar {
